@@ -447,3 +447,328 @@ M("c09-alloc-from-request-number", ["C09"], {"C09": ["R09.1a"]}, "gofakes3.go",
   """	seen := make([]bool, marker+1)
 	_ = seen
 	out, err := g.uploader.ListParts(bucket, object, uploadID, int(marker), maxParts)""")
+
+# ---------------------------------------------------------------- C06
+REVERT("f3-revert-sorted-copy", ["C06"], {"C06": ["R06.1"]}, "0002-fix-check-the-order-of-the-part-list-as-sent-not-of-.patch")
+REVERT("f4-revert-nonpositive-part-number-c06", ["C06"], {"C06": ["R06.3"]}, "0003-fix-reject-non-positive-part-numbers-in-a-complete-r.patch")
+
+M("c06-remove-before-putobject", ["C06"], {"C06": ["R06.2"]}, "uploader.go",
+  """	result, err := u.storage.PutObject(bucket, object, mpu.Meta, bytes.NewReader(body), int64(len(body)))
+	if err != nil {
+		return "", "", err
+	}
+
+	// if getUnlocked succeeded, so will this:
+	u.buckets[bucket].remove(id)
+	return result.VersionID, etag, nil""", """	// if getUnlocked succeeded, so will this:
+	u.buckets[bucket].remove(id)
+
+	result, err := u.storage.PutObject(bucket, object, mpu.Meta, bytes.NewReader(body), int64(len(body)))
+	if err != nil {
+		return "", "", err
+	}
+	return result.VersionID, etag, nil""")
+
+M("c06-etag-compare-dropped", ["C06"], {"C06": ["R06.4"]}, "uploader.go",
+  """		if strings.Trim(inPart.ETag, "\\"") != strings.Trim(upPart.ETag, "\\"") {
+			return "", "", ErrorMessagef(ErrInvalidPart, "unexpected part etag for number %d in complete request", inPart.PartNumber)
+		}
+""", """		if inPart.ETag == "" {
+			return "", "", ErrorMessagef(ErrInvalidPart, "unexpected part etag for number %d in complete request", inPart.PartNumber)
+		}
+""")
+
+M("c06-etag-compared-against-first-part", ["C06"], {"C06": ["R06.4"]}, "uploader.go",
+  """		upPart := mpu.parts[inPart.PartNumber]
+		if strings.Trim(inPart.ETag, "\\"") != strings.Trim(upPart.ETag, "\\"") {""",
+  """		upPart := mpu.parts[inPart.PartNumber]
+		if strings.Trim(inPart.ETag, "\\"") != strings.Trim(input.Parts[0].ETag, "\\"") {""")
+
+M("c06-abort-deletes-object", ["C06"], {"C06": ["R06.5"]}, "uploader.go",
+  """	// if getUnlocked succeeded, so will this:
+	u.buckets[bucket].remove(id)
+
+	return nil
+}""", """	// if getUnlocked succeeded, so will this:
+	u.buckets[bucket].remove(id)
+	if len(u.buckets[bucket].uploads) == 0 {
+		u.storage.DeleteObject(bucket, object+".part")
+	}
+
+	return nil
+}""")
+
+M("c06-uploadpart-locks-before-read", ["C06"], {"C06": ["R06.6"]}, "uploader.go",
+  """	body, err := io.ReadAll(input)
+	if err != nil {
+		return "", err
+	}
+	if len(body) != int(contentLength) {
+		return "", ErrIncompleteBody
+	}
+	u.mu.Lock()
+	defer u.mu.Unlock()
+	mpu, err := u.getUnlocked(bucket, object, id)
+	if err != nil {
+		return "", err
+	}
+""", """	u.mu.Lock()
+	defer u.mu.Unlock()
+	mpu, err := u.getUnlocked(bucket, object, id)
+	if err != nil {
+		return "", err
+	}
+	body, err := io.ReadAll(input)
+	if err != nil {
+		return "", err
+	}
+	if len(body) != int(contentLength) {
+		return "", ErrIncompleteBody
+	}
+""")
+
+M("c06-uploadpart-length-check-dropped", ["C06"], {"C06": ["R06.6"]}, "uploader.go",
+  """	if len(body) != int(contentLength) {
+		return "", ErrIncompleteBody
+	}
+	u.mu.Lock()""", """	if len(body) > int(contentLength) {
+		return "", ErrIncompleteBody
+	}
+	u.mu.Lock()""")
+
+M("c06-complete-drops-meta", ["C06"], {"C06": ["R06.7"]}, "uploader.go",
+  """	result, err := u.storage.PutObject(bucket, object, mpu.Meta, bytes.NewReader(body), int64(len(body)))""",
+  """	result, err := u.storage.PutObject(bucket, object, map[string]string{}, bytes.NewReader(body), int64(len(body)))""")
+
+M("c06-etag-count-from-stored-parts", ["C06"], {"C06": ["R06.7"]}, "uploader.go",
+  """	etag = fmt.Sprintf(`"%s-%d"`, hex.EncodeToString(hash.Sum(nil)), len(input.Parts))""",
+  """	etag = fmt.Sprintf(`"%s-%d"`, hex.EncodeToString(hash.Sum(nil)), mpuPartsLen-1)""")
+
+M("c06-validation-after-putobject", ["C06"], {"C06": ["R06.2"]}, "uploader.go",
+  """	if !input.partsAreSorted() {
+		return "", "", ErrInvalidPartOrder
+	}
+
+	var size int64
+""", """	var size int64
+""", more=[{"file": "uploader.go", "old": """	// if getUnlocked succeeded, so will this:
+	u.buckets[bucket].remove(id)
+	return result.VersionID, etag, nil""", "new": """	if !input.partsAreSorted() {
+		return "", "", ErrInvalidPartOrder
+	}
+	// if getUnlocked succeeded, so will this:
+	u.buckets[bucket].remove(id)
+	return result.VersionID, etag, nil"""}])
+
+# ---------------------------------------------------------------- C01
+REVERT("f17a-revert-hashfile-error", ["C01"], {"C01": ["R01.7"]}, "0009-fix-a-read-error-while-hashing-a-file-is-reported-no.patch", expect="hashFile")
+
+M("c01-etag-from-second-hasher", ["C01"], {"C01": ["R01.1"]}, "gofakes3.go",
+  """	w.Header().Set("ETag", `"`+hex.EncodeToString(rdr.Sum(nil))+`"`)
+
+	return nil
+}
+
+// CopyObject copies""", """	if md5Base64 != "" {
+		if sum, derr := base64.StdEncoding.DecodeString(md5Base64); derr == nil {
+			w.Header().Set("ETag", `"`+hex.EncodeToString(sum)+`"`)
+			return nil
+		}
+	}
+	w.Header().Set("ETag", `"`+hex.EncodeToString(rdr.Sum(nil))+`"`)
+
+	return nil
+}
+
+// CopyObject copies""")
+
+M("c01-mem-hash-of-trimmed-body", ["C01"], {"C01": ["R01.2"]}, "backend/s3mem/backend.go",
+  """	hash := md5.Sum(bts)
+
+	item := &bucketData{""", """	hash := md5.Sum(bytes.TrimRight(bts, "\\x00"))
+
+	item := &bucketData{""", more=[{"file": "backend/s3mem/backend.go", "old": """import (
+	"crypto/md5\"""", "new": """import (
+	"bytes"
+	"crypto/md5\""""}])
+
+M("c01-bolt-stores-capacity-slice", ["C01"], {"C01": ["R01.2"]}, "backend/s3bolt/backend.go",
+  """			Contents:     bts,
+			Hash:         hash[:],""", """			Contents:     bts[:cap(bts)],
+			Hash:         hash[:],""")
+
+M("c01-fs-hash-before-copy-separate-pass", ["C01"], {"C01": ["R01.2"]}, "backend/s3afero/single.go",
+  """	hasher := md5.New()
+	w := io.MultiWriter(f, hasher)
+	if _, err := io.Copy(w, input); err != nil {
+		return result, err
+	}
+
+	// We have to close here before we stat the file as some filesystems don't update the
+	// mtime until after close:
+	if err := f.Close(); err != nil {
+		return result, err
+	}
+
+	closed = true
+""", """	hasher := md5.New()
+	if _, err := io.Copy(f, io.TeeReader(io.LimitReader(input, 1<<30), hasher)); err != nil {
+		return result, err
+	}
+
+	// We have to close here before we stat the file as some filesystems don't update the
+	// mtime until after close:
+	if err := f.Close(); err != nil {
+		return result, err
+	}
+
+	closed = true
+""")
+
+M("c01-head-content-length-from-range", ["C01"], {"C01": ["R01.3"]}, "gofakes3.go",
+  """	w.Header().Set("Content-Length", fmt.Sprintf("%d", obj.Size))
+
+	return nil
+}""", """	w.Header().Set("Content-Length", fmt.Sprintf("%d", len(obj.Hash)))
+
+	return nil
+}""")
+
+M("c01-content-encoding-not-persisted", ["C01"], {"C01": ["R01.4"]}, "gofakes3.go",
+  """			hk == "Content-Disposition" ||
+			hk == "Content-Encoding" {""", """			hk == "Content-Disposition" {""")
+
+M("c01-noncanonical-header-constant", ["C01"], {"C01": ["R01.4"]}, "gofakes3.go",
+  """			hk == "Content-Disposition" ||""", """			hk == "Content-disposition" ||""")
+
+M("c01-metadata-replay-skips-amz", ["C01"], {"C01": ["R01.5"]}, "gofakes3.go",
+  """	for mk, mv := range obj.Metadata {
+		w.Header().Set(mk, mv)
+	}""", """	for mk, mv := range obj.Metadata {
+		if strings.HasPrefix(mk, "X-Amz-Meta-") && len(mv) > 1024 {
+			continue
+		}
+		w.Header().Set(mk, mv)
+	}""")
+
+M("c01-head-skips-shared-response", ["C01"], {"C01": ["R01.5"]}, "gofakes3.go",
+  """	if err := g.writeGetOrHeadObjectResponse(obj, w, r); err != nil {
+		return err
+	}
+
+	w.Header().Set("Content-Length", fmt.Sprintf("%d", obj.Size))""", """	if r.Header.Get("If-None-Match") != "" {
+		if err := g.writeGetOrHeadObjectResponse(obj, w, r); err != nil {
+			return err
+		}
+	}
+
+	w.Header().Set("Content-Length", fmt.Sprintf("%d", obj.Size))""")
+
+M("c01-savemeta-error-dropped", ["C01"], {"C01": ["R01.7"]}, "backend/s3afero/meta.go",
+  """		if err := ms.saveMeta(metaPath, &meta); err != nil {
+			return nil, err
+		}
+	}
+
+	return &meta, nil""", """		ms.fs.MkdirAll(filepath.Dir(fullPath), 0777)
+		if err := ms.saveMeta(metaPath, &meta); err != nil {
+			return nil, err
+		}
+	}
+
+	return &meta, nil""")
+
+M("c01-toobject-mutates-body", ["C01"], {"C01": ["R01.6"]}, "backend/s3mem/bucket.go",
+  """		if rnge != nil {
+			data = data[rnge.Start : rnge.Start+rnge.Length]
+		}
+""", """		if rnge != nil {
+			data = data[rnge.Start : rnge.Start+rnge.Length]
+		} else if len(data) > 0 && data[len(data)-1] == 0 {
+			data[len(data)-1] = '\\n'
+		}
+""")
+
+# ---------------------------------------------------------------- C10
+REVERT("f13-revert-key-containment", ["C10"], {"C10": ["R10.1"]}, "0014-fix-fs-backends-refuse-keys-that-path-cleaning-would.patch")
+REVERT("f16-revert-bolt-meta-bucket", ["C10"], {"C10": ["R10.2"]}, "0015-fix-the-bolt-bookkeeping-bucket-is-not-addressable-a.patch")
+
+M("c10-multi-head-skips-key-check", ["C10"], {"C10": ["R10.1"]}, "backend/s3afero/multi.go",
+  """func (db *MultiBucketBackend) HeadObject(bucketName, objectName string) (*gofakes3.Object, error) {
+	if err := checkObjectName(objectName); err != nil {
+		return nil, err
+	}
+""", """func (db *MultiBucketBackend) HeadObject(bucketName, objectName string) (*gofakes3.Object, error) {
+""")
+
+M("c10-sanitiser-weakened-to-prefix-test", ["C10"], {"C10": ["R10.1"]}, "backend/s3afero/util.go",
+  """	if objectName == "" || path.Clean("/"+objectName) != "/"+objectName {""",
+  """	if objectName == "" || strings.HasPrefix(path.Clean(objectName), "../") {""",
+  more=[{"file": "backend/s3afero/util.go", "old": """	"path/filepath"
+	"strings"
+""", "new": """	"path/filepath"
+	"strings"
+"""}])
+
+M("c10-bolt-delete-uses-raw-bucket", ["C10"], {"C10": ["R10.2"]}, "backend/s3bolt/backend.go",
+  """	return result, db.bolt.Update(func(tx *bolt.Tx) error {
+		b := db.s3Bucket(tx, bucketName)
+		if b == nil {
+			return gofakes3.BucketNotFound(bucketName)
+		}
+		if err := b.Delete([]byte(objectName)); err != nil {""", """	return result, db.bolt.Update(func(tx *bolt.Tx) error {
+		b := tx.Bucket([]byte(bucketName))
+		if b == nil {
+			return gofakes3.BucketNotFound(bucketName)
+		}
+		if err := b.Delete([]byte(objectName)); err != nil {""")
+
+M("c10-single-deleteobject-no-name-guard", ["C10"], {"C10": ["R10.3"]}, "backend/s3afero/single.go",
+  """func (db *SingleBucketBackend) DeleteObject(bucketName, objectName string) (result gofakes3.ObjectDeleteResult, rerr error) {
+	if bucketName != db.name {
+		return result, gofakes3.BucketNotFound(bucketName)
+	}
+""", """func (db *SingleBucketBackend) DeleteObject(bucketName, objectName string) (result gofakes3.ObjectDeleteResult, rerr error) {
+""")
+
+M("c10-multi-put-creates-missing-bucket", ["C10"], {"C10": ["R10.4"]}, "backend/s3afero/multi.go",
+  """	// Another slighly racy check:
+	exists, err := afero.Exists(db.bucketFs, bucketName)
+	if err != nil {
+		return result, err
+	} else if !exists {
+		return result, gofakes3.BucketNotFound(bucketName)
+	}
+
+	objectPath := path.Join(bucketName, objectName)""", """	// Another slighly racy check:
+	exists, err := afero.Exists(db.bucketFs, bucketName)
+	if err != nil {
+		return result, err
+	} else if !exists && size == 0 {
+		return result, gofakes3.BucketNotFound(bucketName)
+	}
+
+	objectPath := path.Join(bucketName, objectName)""")
+
+M("c10-metapath-hashes-flattened-key", ["C10"], {"C10": ["R10.5"]}, "backend/s3afero/meta.go",
+  """	h := fnv.New128a()
+	h.Write([]byte(object))
+	object = strings.Replace(object, "/", "_", -1)
+	object = strings.Replace(object, "\\\\", "_", -1)
+""", """	h := fnv.New128a()
+	object = strings.Replace(object, "/", "_", -1)
+	object = strings.Replace(object, "\\\\", "_", -1)
+	h.Write([]byte(object))
+""")
+
+M("c10-route-lowercases-bucket", ["C10"], {"C10": ["R10.6"]}, "routing.go",
+  """		err = g.routeObject(bucket, object, w, r)
+""", """		err = g.routeObject(strings.ToLower(bucket), object, w, r)
+""")
+
+M("c10-removeall-on-object-path", ["C10"], {"C10": ["R10.7"]}, "backend/s3afero/multi.go",
+  """	if err := db.bucketFs.Remove(filepath.FromSlash(fullPath)); err != nil && !os.IsNotExist(err) {
+		return err
+	}""", """	if err := db.bucketFs.RemoveAll(filepath.FromSlash(fullPath)); err != nil {
+		return err
+	}""")
